@@ -4,7 +4,7 @@ import re
 
 from .. import rules_filters as RF
 from .. import rx
-from ..astutil import Guards, enum_paths, src, is_name, is_attr, local_defs, yields_in, sym_path
+from ..astutil import Guards, enum_paths, src, is_name, is_attr, local_defs, yields_in, sym_path, fact_in, path_feasible
 from ..cg import get_cg
 from ..fold import TT, NotConst
 from ..model import own_nodes
@@ -283,119 +283,224 @@ def check_guards(ctx, T):
 
 def check_strip_comments(ctx, T):
     repo, folder = ctx.repo, ctx.folder
+    from ..cg import get_cg
+    cg = get_cg(ctx)
     c = RF.filter_class(ctx, 'StripCommentsFilter')
     f = c.methods['_process']
     tl = f.params[0]
     dom = RF.WsDomain(ctx)
-    # (c) the inserted token
-    git = f.nested.get('_get_insert_token')
-    ctx.need(git is not None, 'StripCommentsFilter._process._get_insert_token not found')
-    rets = [n for n in own_nodes(git.node) if isinstance(n, ast.Return)]
-    okc = bool(rets)
-    details = []
-    for r in rets:
-        v = r.value
-        good = False
-        if isinstance(v, ast.Call) and len(v.args) == 2:
-            tt = folder.try_eval(v.args[0], git.mod)
-            if isinstance(tt, TT) and RF.WS.contains(tt):
-                a = v.args[1]
-                if dom.ws_only(a, git):
-                    good = True
-                elif (isinstance(a, ast.Subscript) and 'groups()' in src(a)) or (
-                        isinstance(a, ast.Call) and isinstance(a.func, ast.Attribute) and a.func.attr == 'group'):
-                    # group of re.search(<pattern of line breaks>, token.value)
-                    pats = [n.args[0].value for n in own_nodes(git.node) if isinstance(n, ast.Call) and src(n.func) in ('re.search', 're.match')
-                            and isinstance(n.args[0], ast.Constant)]
-                    wsb = rx.cls(r'\s', re.UNICODE)
-                    good = bool(pats) and all((s & ~wsb) == 0 for ptn in pats for s in rx.Prog(ptn, 0).charsets())
-        details.append(f'`{src(v)[:60]}`: {good}')
-        okc = okc and good
-    ctx.ob('R8.3', 'c:replacement-is-whitespace', f'{git.mod.relpath}:{git.node.lineno}',
-           'the token put in place of a comment is a Whitespace token holding a blank or the comment\'s line breaks', okc, '; '.join(details))
+    defs = local_defs(f.node)
+
+    def callee(call, owner):
+        """the package function a call expression resolves to (nested def, module-level function, method)"""
+        if isinstance(call.func, ast.Name):
+            p_ = owner
+            while p_ is not None:
+                if call.func.id in p_.nested:
+                    return p_.nested[call.func.id]
+                p_ = p_.parent
+        for cq in cg.callees_of_call(owner.qname, call):
+            return repo.funcs[cq]
+        return None
+
+    # (c) the inserted token: every expression put into tl.tokens is a whitespace token
+    def token_ctor_ok(v, owner):
+        if not (isinstance(v, ast.Call) and len(v.args) == 2):
+            return False
+        tt = folder.try_eval(v.args[0], owner.mod)
+        if not (isinstance(tt, TT) and RF.WS.contains(tt)):
+            return False
+        a_ = v.args[1]
+        if dom.ws_only(a_, owner):
+            return True
+        if (isinstance(a_, ast.Subscript) and 'groups()' in src(a_)) or (
+                isinstance(a_, ast.Call) and isinstance(a_.func, ast.Attribute) and a_.func.attr == 'group'):
+            # group of re.search(<pattern of line breaks>, token.value)
+            pats = [n.args[0].value for n in own_nodes(owner.node) if isinstance(n, ast.Call) and src(n.func) in ('re.search', 're.match')
+                    and n.args and isinstance(n.args[0], ast.Constant)]
+            wsb = rx.cls(r'\s', re.UNICODE)
+            return bool(pats) and all((s_ & ~wsb) == 0 for ptn in pats for s_ in rx.Prog(ptn, 0).charsets())
+        return False
+
+    def inserted_ok(e, owner, depth=0):
+        """(ok, description)"""
+        if isinstance(e, ast.Name):
+            ds = local_defs(owner.node).get(e.id, [])
+            if not ds:
+                return False, f'`{e.id}` has no local definition'
+            for d in ds:
+                if isinstance(d, tuple):
+                    return False, f'`{e.id}` is not built here'
+                ok, why = inserted_ok(d, owner, depth + 1)
+                if not ok:
+                    return ok, why
+            return True, f'{e.id}: every definition is a whitespace token'
+        if isinstance(e, ast.Call):
+            if token_ctor_ok(e, owner):
+                return True, f'`{src(e)[:50]}`'
+            g = callee(e, owner) if depth < 3 else None
+            if g is not None and g.cls is None or (g is not None and g.name != '__init__'):
+                rets = [r for r in own_nodes(g.node) if isinstance(r, ast.Return) and r.value is not None]
+                if not rets:
+                    return False, f'{g.short} returns nothing'
+                for r in rets:
+                    ok, why = inserted_ok(r.value, g, depth + 1)
+                    if not ok:
+                        return False, f'{g.short} returns {why}'
+                return True, f'{g.short}: every return is a whitespace token'
+        return False, f'`{src(e)[:60]}` is not a Whitespace token holding a blank or line breaks'
+
+    # (a) the lookup: (idx, tok) pairs come from tl.token_next_by(i=sql.Comment, t=T.Comment, idx=...)
+    def lookup_call(v, owner, depth=0):
+        """the token_next_by call a lookup expression amounts to, or None"""
+        if isinstance(v, ast.Call) and isinstance(v.func, ast.Attribute) and v.func.attr == 'token_next_by':
+            return v, owner
+        if isinstance(v, ast.Call) and depth < 2:
+            g = callee(v, owner)
+            if g is not None:
+                rets = [r for r in own_nodes(g.node) if isinstance(r, ast.Return) and r.value is not None]
+                if len(rets) == 1:
+                    return lookup_call(rets[0].value, g, depth + 1)
+        return None, None
+    lookups = []
+    for n in own_nodes(f.node, include_lambdas=False):
+        if isinstance(n, ast.Assign) and isinstance(n.targets[0], ast.Tuple) and len(n.targets[0].elts) == 2 \
+                and all(isinstance(e, ast.Name) for e in n.targets[0].elts):
+            lc, owner = lookup_call(n.value, f)
+            if lc is not None:
+                kw = {k.arg: folder.try_eval(k.value, owner.mod) for k in lc.keywords}
+                if getattr(kw.get('i'), 'cls', None) is not None or kw.get('t') is not None:
+                    lookups.append((n, lc, owner, kw))
+    ctx.need(lookups, 'StripCommentsFilter._process: no (idx, token) = ...token_next_by(...) lookup found')
+    pairs = {(n.targets[0].elts[0].id, n.targets[0].elts[1].id) for n, _, _, _ in lookups}
+    ctx.need(len(pairs) == 1, f'StripCommentsFilter._process: several lookup pairs {sorted(pairs)}')
+    idxv, tokv = next(iter(pairs))
+    okl = True
+    for n, lc, owner, kw in lookups:
+        okl = okl and kw.get('t') == TT(('Comment',)) and getattr(kw.get('i'), 'cls', None) is not None and kw['i'].cls.name == 'Comment' \
+            and 'm' not in kw and not lc.args
+    # every other store to the pair would let a non-comment into the loop
+    other = [n for n in own_nodes(f.node, include_lambdas=False) if isinstance(n, (ast.Assign, ast.AugAssign)) and not any(n is l[0] for l in lookups)
+             and tokv in RF_names_stored(n)]
+    okl = okl and not other
     # (b) hints
     hints = sorted({tuple(r.action) for r in T.lex if isinstance(r.action, TT) and r.action and r.action[-1] == 'Hint'})
-    env = {}
-    for s in f.node.body:
-        if isinstance(s, ast.Assign) and is_name(s.targets[0]):
-            v = folder.try_eval(s.value, f.mod)
-            if v is not None:
-                env[s.targets[0].id] = v
-    sh = env.get('sql_hints')
+    hint_names = set()
+    sh = None
+    for n in own_nodes(f.node, include_lambdas=False):
+        if isinstance(n, ast.Assign) and is_name(n.targets[0]):
+            v = folder.try_eval(n.value, f.mod)
+            if isinstance(v, tuple) and v and all(isinstance(x, TT) and x and x[-1] == 'Hint' for x in v):
+                hint_names.add(n.targets[0].id)
+                sh = v if sh is None else sh
+    if sh is None:
+        # the hint types written inline (`token.ttype in (T.Comment.Multiline.Hint, ...)`)
+        for n in own_nodes(f.node, include_lambdas=False):
+            if isinstance(n, ast.Compare) and isinstance(n.ops[0], ast.In):
+                v = folder.try_eval(n.comparators[0], f.mod)
+                if isinstance(v, tuple) and v and all(isinstance(x, TT) and x and x[-1] == 'Hint' for x in v):
+                    sh = v
     okb = isinstance(sh, tuple) and sorted(tuple(x) for x in sh) == hints
     ctx.ob('R8.3', 'b:hint-types', f'{f.mod.relpath}:{f.node.lineno}', f'the hint test covers every hint type of the lexer {[TT(h) for h in hints]}', okb,
-           f'sql_hints = {sh}: an optimizer hint of a type not listed is stripped')
-    w = [s for s in f.node.body if isinstance(s, ast.While)]
+           f'hint types tested: {sh}: an optimizer hint of a type not listed is stripped')
+
+    def mentions_hint(text):
+        return 'Hint' in text or any(re.search(r'\b' + re.escape(h) + r'\b', text) for h in hint_names)
+    # flags set to True under a hint test (is_sql_hint = True)
+    gd = Guards(f.node)
+    for _ in range(2):
+        for n in own_nodes(f.node, include_lambdas=False):
+            if isinstance(n, ast.Assign) and is_name(n.targets[0]) and isinstance(n.value, ast.Constant) and n.value.value is True:
+                facts = [a for a in gd.facts(n) if a[0] != '|']
+                if any(pol and mentions_hint(e) for e, pol in facts):
+                    hint_names.add(n.targets[0].id)
+            elif isinstance(n, ast.Assign) and is_name(n.targets[0]) and isinstance(n.value, (ast.BoolOp, ast.Compare)) and mentions_hint(src(n.value)):
+                hint_names.add(n.targets[0].id)
+    w = [s for s in ast.walk(f.node) if isinstance(s, ast.While)]
     ctx.need(len(w) == 1, 'StripCommentsFilter._process: expected one while loop')
-    tokv = src(w[0].test)
+    w = w[0]
+    prevv = None
+    for n in own_nodes(f.node, include_lambdas=False):
+        if isinstance(n, ast.Assign) and isinstance(n.targets[0], ast.Tuple) and len(n.targets[0].elts) == 2 and isinstance(n.value, ast.Call) \
+                and is_attr(n.value.func, 'token_prev', tl) and n.value.args and is_name(n.value.args[0], idxv) and is_name(n.targets[0].elts[1]):
+            prevv = n.targets[0].elts[1].id
     npaths = 0
-    idxv = None
-    for s in f.node.body:
-        if isinstance(s, ast.Assign) and isinstance(s.targets[0], ast.Tuple) and len(s.targets[0].elts) == 2 and is_name(s.targets[0].elts[1], tokv):
-            idxv = s.targets[0].elts[0].id
-            lookup = s.value
-    for p in enum_paths(w[0].body):
-        facts = [a for a in p.facts() if a[0] != '|']
+    ins_checked = {}
+    for p in enum_paths(w.body):
+        if not path_feasible(p):
+            continue
+        allfacts = p.facts()
+        facts = [a for a in allfacts if a[0] != '|']
+        alts = [a for a in allfacts if a[0] == '|']
         st = p.stmts()
         effects = []
-        for s in st:
-            for n in ast.walk(s):
+        for s_ in st:
+            for n in ast.walk(s_):
                 if isinstance(n, ast.Call) and isinstance(n.func, ast.Attribute) and is_attr(n.func.value, 'tokens', tl) \
                         and n.func.attr in ('insert', 'remove', 'pop', 'append', 'extend', 'clear'):
                     effects.append((n.func.attr, n))
-            if isinstance(s, ast.Assign) and isinstance(s.targets[0], ast.Subscript) and is_attr(s.targets[0].value, 'tokens', tl):
-                effects.append(('replace', s))
-            if isinstance(s, ast.Delete):
-                effects.append(('del', s))
-        hint_path = ('is_sql_hint', True) in facts
-        npaths += 1
+            if isinstance(s_, ast.Assign) and isinstance(s_.targets[0], ast.Subscript) and is_attr(s_.targets[0].value, 'tokens', tl):
+                effects.append(('replace', s_))
+            if isinstance(s_, ast.Delete):
+                effects.append(('del', s_))
         desc = ' ∧ '.join(('' if pol else 'not ') + e for e, pol in facts)[:150]
+        # leaving the loop because the lookup found nothing
+        if p.exit == 'break' and fact_in((tokv, False), allfacts) and not effects:
+            continue
+        hint_path = any(pol and mentions_hint(e) for e, pol in facts) or any(
+            all(any(pol and mentions_hint(e) for e, pol in alt) for alt in a[1]) for a in alts)
+        npaths += 1
         if hint_path:
-            ctx.ob('R8.3', f'b:hint-path[{desc}]', f'{f.mod.relpath}:{w[0].lineno}', 'a hint is skipped before any effect', not effects and p.exit == 'continue',
+            ctx.ob('R8.3', f'b:hint-path[{desc}]', f'{f.mod.relpath}:{w.lineno}', 'a hint is skipped before any effect', not effects and p.exit in ('continue', 'fall'),
                    f'effects {[e[0] for e in effects]}, exit {p.exit}')
             continue
         kinds = [e[0] for e in effects]
         key = f'path[{desc}]'
+
+        def ins_ok(e):
+            k = src(e)
+            if k not in ins_checked:
+                ins_checked[k] = inserted_ok(e, f)
+            return ins_checked[k]
         if kinds == ['replace']:
-            s = effects[0][1]
-            ok = src(s.targets[0].slice) == idxv and isinstance(s.value, ast.Call) and is_name(s.value.func, '_get_insert_token')
-            ctx.ob('R8.3', 'a:' + key, f'{f.mod.relpath}:{s.lineno}', 'the comment found by the lookup is replaced in place by the separator token', ok, f'`{src(s)}`')
+            s_ = effects[0][1]
+            iok, why = ins_ok(s_.value)
+            ok = src(s_.targets[0].slice) == idxv and iok
+            ctx.ob('R8.3', 'a:' + key, f'{f.mod.relpath}:{s_.lineno}', 'the comment found by the lookup is replaced in place by the separator token', ok,
+                   f'`{src(s_)}`; {why}')
         elif kinds in (['insert', 'remove'], ['remove']):
             rm = effects[-1][1]
             ok = is_name(rm.args[0], tokv)
             detail = f'`{src(rm)}`'
             if kinds[0] == 'insert':
                 ins = effects[0][1]
-                ok = ok and src(ins.args[0]) == idxv and isinstance(ins.args[1], ast.Call) and is_name(ins.args[1].func, '_get_insert_token')
-                detail += f'; `{src(ins)}`'
+                iok, why = ins_ok(ins.args[1]) if len(ins.args) == 2 else (False, 'insert arity')
+                ok = ok and src(ins.args[0]) == idxv and iok
+                detail += f'; `{src(ins)}`; {why}'
             else:
                 # (d) removal without separator only if prev_ is None or prev_ is '('
                 flat = {(e, pol) for e, pol in facts}
-                alts = [a for a in p.facts() if a[0] == '|']
+                pv = prevv or 'prev_'
                 allowed = False
-                for a in alts:
-                    if all(any(('prev_ is None', True) == x or (x[1] and x[0].startswith('prev_.match(T.Punctuation') and "'('" in x[0]) for x in alt) and len(alt) == 1
-                           for alt in a[1]) and len(a[1]) == 2:
+                for a_ in alts:
+                    if all(any((f'{pv} is None', True) == x or (x[1] and x[0].startswith(f'{pv}.match(T.Punctuation') and "'('" in x[0]) for x in alt) and len(alt) == 1
+                           for alt in a_[1]) and len(a_[1]) == 2:
                         allowed = True
-                if ('prev_ is None', True) in flat or any(pol and e.startswith('prev_.match(T.Punctuation') and "'('" in e for e, pol in flat):
+                if (f'{pv} is None', True) in flat or any(pol and e.startswith(f'{pv}.match(T.Punctuation') and "'('" in e for e, pol in flat):
                     allowed = True
                 ok = ok and allowed
-                detail += f'; removal without separator under {[x for x in p.facts()][-1:]}'
+                detail += f'; removal without separator under {[x for x in allfacts][-1:]}'
             ctx.ob('R8.3', ('d:' if kinds == ['remove'] else 'a:') + key, f'{f.mod.relpath}:{rm.lineno}',
                    'the comment is removed; a separator is inserted unless the left neighbour is absent or "("', ok,
                    detail + ': two tokens can fuse (or a token other than the comment is removed)')
         elif not kinds:
-            ctx.ob('R8.3', 'a:' + key, f'{f.mod.relpath}:{w[0].lineno}', 'every non-hint comment is removed or replaced', False, 'a comment is left in place')
+            ctx.ob('R8.3', 'a:' + key, f'{f.mod.relpath}:{w.lineno}', 'every non-hint comment is removed or replaced', False, 'a comment is left in place')
         else:
-            ctx.ob('R8.3', 'e:' + key, f'{f.mod.relpath}:{w[0].lineno}', 'only the recognised remove/insert/replace effects occur', False, f'effects {kinds}')
-    # (a) the lookup finds comments only
-    okl = isinstance(lookup, ast.Call) and is_name(lookup.func, 'get_next_comment')
-    gnc = f.nested.get('get_next_comment')
-    if gnc is not None:
-        r = [n for n in own_nodes(gnc.node) if isinstance(n, ast.Return)][0].value
-        kw = {k.arg: folder.try_eval(k.value, gnc.mod) for k in r.keywords}
-        okl = okl and isinstance(r, ast.Call) and r.func.attr == 'token_next_by' and kw.get('t') == TT(('Comment',)) \
-            and getattr(kw.get('i'), 'cls', None) is not None and kw['i'].cls.name == 'Comment' and 'm' not in kw
+            ctx.ob('R8.3', 'e:' + key, f'{f.mod.relpath}:{w.lineno}', 'only the recognised remove/insert/replace effects occur', False, f'effects {kinds}')
+    okc = bool(ins_checked) and all(v[0] for v in ins_checked.values())
+    ctx.ob('R8.3', 'c:replacement-is-whitespace', f'{f.mod.relpath}:{f.node.lineno}',
+           'the token put in place of a comment is a Whitespace token holding a blank or the comment\'s line breaks', okc,
+           '; '.join(f'{k[:40]}: {v[1]}' for k, v in ins_checked.items()))
     # (f) bottom-up traversal: sub-groups (e.g. a Comment group [ordinary comment, hint]) are stripped before the group itself is judged
     pr = c.methods['process']
     order = []
@@ -408,7 +513,17 @@ def check_strip_comments(ctx, T):
     kinds = [k for k, _, _ in order]
     ctx.ob('R8.3', 'f:bottom-up', f'{pr.mod.relpath}:{pr.node.lineno}', 'process() strips the sub-groups first and the group itself afterwards', kinds == ['recurse', 'self'],
            f'order of calls in process(): {kinds}: a Comment group is judged by its first token before its own non-hint comments are removed, so a hint that follows an ordinary comment is stripped with it')
-    ctx.ob('R8.3', 'a:lookup', f'{f.mod.relpath}:{f.node.lineno}', 'the lookup selects exactly T.Comment leaves and sql.Comment groups', okl, '')
+    ctx.ob('R8.3', 'a:lookup', f'{f.mod.relpath}:{f.node.lineno}', 'the lookup selects exactly T.Comment leaves and sql.Comment groups', okl,
+           f'lookups: {[src(l[1])[:70] for l in lookups]}; other stores to the pair: {[src(o)[:40] for o in other]}')
+
+
+def RF_names_stored(n):
+    out = set()
+    for t in (n.targets if isinstance(n, ast.Assign) else [n.target]):
+        for e in ast.walk(t):
+            if isinstance(e, ast.Name) and isinstance(e.ctx, ast.Store):
+                out.add(e.id)
+    return out
 
 
 def check_placement(ctx):
